@@ -97,6 +97,8 @@ def parse_fx(s):
             out.append({"kind": "updcc", "name": f[1], "fins": [] if f[2] == "fins=-" else f[2][5:].split("+"), "rest": f[3][5:], "out": f[4]})
         elif f[0] == "ev":
             out.append({"kind": "ev", "code": f[1], "obj": f[2]})
+        elif f[0] == "getnode":
+            out.append({"kind": "getnode", "node": f[1], "out": f[2]})
         else:
             out.append({"kind": f[0], "raw": e})
     return out
@@ -172,11 +174,14 @@ class Trace:
     def spec_at(self, k):
         """ClusterCIDR specs known up to step k (a name can be re-created: latest wins)"""
         out = {}
-        for op in self.ops[:k + 1]:
+        for i, op in enumerate(self.ops[:k + 1]):
             f = op.split()
+            live = {c["name"] for c in self.api[i - 1][1]} if i > 0 else set()
             if f[0] == "cc+" and len(f) == 9:
-                out.setdefault(f[1], {"v4": ptok(f[2]) if f[2] != "-" else None, "v6": ptok(f[3]) if f[3] != "-" else None,
-                                      "hb": int(f[4]), "sel": f[5]})
+                # a name can be deleted and created again: the latest creation that took effect counts
+                if f[1] not in out or f[1] not in live:
+                    out[f[1]] = {"v4": ptok(f[2]) if f[2] != "-" else None, "v6": ptok(f[3]) if f[3] != "-" else None,
+                                 "hb": int(f[4]), "sel": f[5]}
         return out
 
 
@@ -353,7 +358,8 @@ def has_room(t, k, en, spec):
             return False
         w = W[fam]
         n = w - spec["hb"]
-        used = used_everywhere(t.snap[k], fam)
+        # CIDRs in use: every used key of that family in any pool, and the pod CIDRs of the nodes in the cache
+        used = used_everywhere(t.snap[k], fam) + [c for n in t.cache[k][0] for c in n["cidrs"] if c and c[0] == fam]
         free = False
         for i in range(p["max"]):
             b = (fam, rng[1] + i * (1 << (w - n)), n)
@@ -403,7 +409,20 @@ def mon_c05(t):
     return bad
 
 
+def running(t, k):
+    """informers have been started for the current incarnation"""
+    for i in range(k, -1, -1):
+        f = t.ops[i].split()[0]
+        if f == "start" and t.snap[i] is not None:
+            return True
+        if f in ("construct", "crash"):
+            return False
+    return False
+
+
 def idle(t, k):
+    if not running(t, k):
+        return False
     ns, cs, nfeed, cfeed = t.cache[k]
     q = t.q[k].split("/")
     # nothing ready to run; items waiting for a retry after a failure do not count (they fail again)
@@ -414,8 +433,15 @@ def mon_c04(t):
     bad = []
     svc = [None, None]
     fetched = 0
+    ambiguous = []     # CIDRs of node writes whose outcome the API server left ambiguous (this incarnation)
     for k, op in enumerate(t.ops):
         f = op.split()
+        if f[0] in ("construct", "crash"):
+            ambiguous = []
+        if any(e["kind"] == "getnode" and e["out"] == "fail" for e in t.fx[k]):
+            for e in t.fx[k]:
+                if e["kind"] == "patch" and e["out"] in ("tmo", "tmn"):
+                    ambiguous += e["cidrs"]
         if f[0] == "construct":
             svc = [ptok(f[1]) if f[1] != "-" else None, ptok(f[2]) if f[2] != "-" else None]
         if f[0] in ("fn", "fc"):
@@ -434,7 +460,8 @@ def mon_c04(t):
                 if not p:
                     continue
                 for key in p["keys"]:
-                    just = any(overlap(key, c) for n in nodes for c in n["cidrs"]) or any(overlap(key, s) for s in svc)
+                    just = any(overlap(key, c) for n in nodes for c in n["cidrs"]) or any(overlap(key, s) for s in svc) \
+                        or any(overlap(key, c) for c in ambiguous)
                     if not just:
                         bad.append({"step": k, "clause": "block withheld with nothing justifying it",
                                     "detail": "%s in %s (assoc %s)" % (key, en["name"], en["assoc"]),
@@ -464,6 +491,11 @@ def classify_c04(t, k, en, key):
         return "occupied-in-several-clustercidrs"       # D11
     if "dnt" in ops.split():
         return "holder-deleted-stale-tombstone"
+    # deleted between the start-up listing and the start of the informers: no notification ever arrives
+    for j in range(i, k + 1):
+        f = t.ops[j].split()
+        if f[0] == "n-" and f[1] == name and not running(t, j):
+            return "holder-deleted-before-informers-started"
     return "holder-deleted-not-released"
 
 
@@ -483,11 +515,11 @@ def mon_c08(t):
         if t.api[k] != t.api[k - 1]:
             bad.append({"step": k, "clause": "processing a node that has pod CIDRs changed the cluster", "detail": t.ops[k], "cls": "resync-changes-api"})
         # nothing beyond the node's own CIDRs gets reserved
-        before = {(en["name"], fam): set(en[fam]["keys"]) for en in (t.snap[k - 1] or []) for fam in ("v4", "v6") if en[fam]}
+        before = {(en["sel"], en["idx"], fam): set(en[fam]["keys"]) for en in (t.snap[k - 1] or []) for fam in ("v4", "v6") if en[fam]}
         for en in t.snap[k] or []:
             for fam in ("v4", "v6"):
                 if en[fam]:
-                    new = set(en[fam]["keys"]) - before.get((en["name"], fam), set())
+                    new = set(en[fam]["keys"]) - before.get((en["sel"], en["idx"], fam), set())
                     for key in new:
                         if not any(overlap(key, c) for c in nodeobj["cidrs"]):
                             bad.append({"step": k, "clause": "re-sync reserved a block beyond the node's own CIDRs",
@@ -498,8 +530,11 @@ def mon_c08(t):
 def mon_c09(t):
     bad = []
     svc, at_start = [None, None], set()
+    tainted = []    # pod CIDRs nodes were created with: the property's quantifier has no node inside a service range
     for k, op in enumerate(t.ops):
         f = op.split()
+        if f[0] == "n+" and f[3] != "-":
+            tainted += parse_cidrs(f[3])
         if f[0] == "construct":
             svc = [ptok(f[1]) if f[1] != "-" else None, ptok(f[2]) if f[2] != "-" else None]
             at_start = {c["name"] for c in (t.api[k - 1][1] if k > 0 else [])}
@@ -512,7 +547,7 @@ def mon_c09(t):
                     continue
                 for c in e["cidrs"]:
                     for s in svc:
-                        if s and overlap(c, s):
+                        if s and overlap(c, s) and not any(overlap(c, x) and overlap(x, s) for x in tainted):
                             bad.append({"step": k, "clause": "assigned pod CIDR overlaps a service range",
                                         "detail": "%s gets %s, service %s" % (e["node"], c, s), "cls": "overlaps-service"})
     return bad
